@@ -208,7 +208,13 @@ Definition judge_rule (case obs : sx) : sx :=
             | Some w, Some sh, Some t => Some (w, sh, on_grid w sh t l)
             | _, _, _ => None end in
           let specific :=
-            if String.eqb meth "numpy" then
+            if String.eqb meth "numpy_narrow" then
+              (* fewer representable numbers between minimum and maximum than bins requested: numpy's own edges repeat there;
+                 physt must still give the requested number of rising bins that start at the minimum and cover the data
+                 (covering is part of [common]) *)
+              String.eqb cls "NumpyBinning" && consecutive_exact l && Qceqb (first_edge l) lo &&
+              match (x <- fld "bin_count" case ;; d_nat x) with Some k => Nat.eqb (length l) k | None => false end
+            else if String.eqb meth "numpy" then
               String.eqb cls "NumpyBinning" && consecutive_exact l &&
               match (x <- fld "ref" obs ;; d_qs x), (x <- fld "k" obs ;; d_nat x) with
               | Some ref, Some k => all2 Qceqb (to_edges l) ref && Nat.eqb (length ref) (length (to_edges l)) && Nat.eqb (length l) k &&
